@@ -53,11 +53,11 @@ import random
 from vlib import env
 
 THEOREMS = [
-    "mergeSort_total", "mergeSort_covers", "mergeSort_nodup", "dotted_injective",
-    "mainline_revno", "get_rev_id_nth", "revno_roundtrip", "revid_roundtrip",
-    "dotted_roundtrip", "dotted_roundtrip_inv",
-    "spec_neg", "spec_last", "spec_revid", "spec_tag", "spec_before", "spec_mainline", "spec_ancestor",
-    "iter_exclude_include", "iter_sublist",
+    "mergeSort_total", "mergeSort_covers", "mergeSort_nodup", "dotted_injective", "mergeSort_tip_first",
+    "get_rev_id_nth", "revno_roundtrip", "revno_zero", "get_rev_id_pred_is_left_parent",
+    "revno_map_bijection", "dotted_roundtrip_partial", "dotted_roundtrip_inv_partial",
+    "spec_neg", "spec_last", "spec_revid", "spec_tag", "spec_before", "spec_before_null",
+    "spec_mainline", "spec_ancestor", "iter_sublist", "iter_exclude_include",
 ]
 RULE = ("case = (history DAG, branch tip, tags, other branches, one query); queries are enumerated per history "
         "(all revnos, all dotted revnos, all revids, all tags, nested before:/mainline:, sampled (start, stop, rule, "
@@ -590,6 +590,11 @@ def oracle(w, gi, facts, q, res):
             for i, x in enumerate(lh):
                 if res.get(name(g, x)) != (i + 1,):
                     bad.append("mainline revision %r has dotted revno %r, expected (%d,)" % (name(g, x), res.get(name(g, x)), i + 1))
+            mainline = {name(g, x) for x in lh}
+            for r_, d_ in res.items():
+                # hypothesis `mainlineCoherent` of dotted_roundtrip_partial, observed on the real map
+                if (len(d_) == 1) != (r_ in mainline):
+                    bad.append("revision %r has dotted revno %r but is %s the mainline" % (r_, d_, "on" if r_ in mainline else "off"))
             if {name(g, r): d for r, d in numbering.items()} != res:
                 bad.append("revno map differs from the merge_sort numbering")
     elif k == "id2d":
